@@ -70,21 +70,14 @@ def comparators(run, F):
                 n += 1
                 cmp_e = peel(x['ch'][-1])
                 used = _cmp_used(fn, cmp_e)
-                # which arm: nearest enclosing `if !rev` / `if q <= 0.5`
+                # which arm: the path condition on `rev` / on the half of q at the call
                 want = None
-                for p, child in zip(reversed(parents), [x] + list(reversed(parents))[:-1]):
-                    if p.get('k') == 'If' and len(p['ch']) == 3:
-                        c = src(peel(p['ch'][0]))
-                        then = any(y is x for y in walk(p['ch'][1]))
-                        if c in ('!rev',):
-                            want = 'sort_cmp' if then else 'sort_cmp_rev'
-                            break
-                        if c == 'rev':
-                            want = 'sort_cmp_rev' if then else 'sort_cmp'
-                            break
-                        if c == '(q <= 0.5)':
-                            want = 'sort_cmp' if then else 'sort_cmp_rev'
-                            break
+                g = dtree.guards_at(fn.hir, x, N.self_env(fn))
+                gc = set(g[0]) if g else set()
+                if 'rev' in gc or '(0.5 < q)' in gc:
+                    want = 'sort_cmp_rev'
+                if '!rev' in gc or '(q <= 0.5)' in gc:
+                    want = 'sort_cmp' if want is None else 'contradiction'
                 if want is None and used == {'sort_cmp', 'sort_cmp_rev'}:
                     # `let sort_func = if !rev { T::sort_cmp } else { T::sort_cmp_rev }`
                     want = 'both-by-rev'
@@ -134,12 +127,16 @@ def _cmp_used(fn, e):
 
 
 def _rev_select(fn, e):
+    """the comparator variable is chosen by `rev`: descending exactly when rev holds"""
     e = peel(e)
     for y in walk(fn.hir):
         if y.get('k') == 'Block':
             for s in y.get('stmts', []):
                 if s['k'] == 'Let' and s['pat'].get('local') == e.get('local') and 'init' in s:
-                    return src(peel(s['init'])) == 'if !rev { IsNone::sort_cmp } else { IsNone::sort_cmp_rev }'
+                    t = dtree.table(peel(s['init']), dict(dtree.env_at(fn.hir, s['init'], N.self_env(fn))))
+                    rows = {(frozenset(cs), l) for cs, l, ef in t if not ef}
+                    return rows == {(frozenset({'rev'}), 'IsNone::sort_cmp_rev'),
+                                    (frozenset({'!rev'}), 'IsNone::sort_cmp')}
     return False
 
 
@@ -204,7 +201,7 @@ def quantile(run, F):
         cmpname = 'sort_cmp' if half == 'lo' else 'sort_cmp_rev'
         copy = [k for k, v in defs.items() if v == 'self.titer().collect_trusted_vec1()']
         ok_sel = len(sel) == 1 and len(copy) == 1 and expand(sel[0][1]) == \
-            '%s.try_as_slice_mut().select_nth_unstable_by(%s, |a0, a1| a0.%s(a1))' % (copy[0], J, cmpname)
+            '%s.try_as_slice_mut().select_nth_unstable_by(%s, IsNone::%s)' % (copy[0], J, cmpname)
         if half == '?' or eq == ne or not ok_sel:
             bad_idx.append((half, sorted(csx)[:2], [v[:80] for k, v in sel]))
             continue
@@ -367,7 +364,7 @@ def partitions(run, F):
             small_unsorted = ('Box::new(self.titer().filter(IsNone::not_none).chain(iter::repeat(NULL)).take(%s).to_trust(%s))' % (K1, K1), ())
             small_sorted = lambda rev: ('Box::new(vec.into_iter().chain(iter::repeat(NULL)).take(%s).to_trust(%s))' % (K1, K1),
                                         ('vec := self.titer().collect_trusted_vec1()',
-                                         'vec.sort_unstable_by(|a0, a1| a0.sort_cmp%s(a1)).unwrap()' % ('_rev' if rev else '')))
+                                         'vec.sort_unstable_by(IsNone::sort_cmp%s).unwrap()' % ('_rev' if rev else '')))
             sel = lambda rev: 'IsNone::sort_cmp_rev' if rev else 'IsNone::sort_cmp'
             general = lambda rev, sort: ('Box::new(vec.into_iter().to_trust(%s))' % K1,
                                          ('vec := self.titer().collect_trusted_vec1()',
